@@ -523,6 +523,53 @@ pub fn configs(tier: Tier) -> Vec<(Config, usize)> {
     v
 }
 
+/// A marking operation (touch, put onto an existing key, get) that races with a set must not hand
+/// the replaced entry's queue position to the new entry.
+fn concurrent_programs() -> Vec<(crate::sched::Program, crate::props::e1::Mode)> {
+    use crate::props::e1::{self, api, planted, Mode};
+    use crate::world::Size;
+    let k = e1::key1();
+    let mut out = Vec::new();
+    for (front, cfg, loc) in [
+        ("plain", e1::plain_cfg(1 << 40), "k".to_string()),
+        ("sharded", e1::sharded_cfg(1 << 40), format!("{}/k", ops::shard_dir_name(0))),
+    ] {
+        let pre = vec![planted(&loc, Val::one(0), false, 3), planted(&loc.replace("k", "other"), Val::one(5), false, 1)];
+        let v = |t: usize| e1::wval(t, 0, Size::One);
+        for (name, marker) in [("touch", Op::Touch(k.clone())), ("put", Op::Put(k.clone(), v(0))), ("get", Op::Get(k.clone()))] {
+            out.push((
+                crate::sched::Program {
+                    name: format!("mark-{}-{}|set", front, name),
+                    cfg: cfg.clone(),
+                    pre: pre.clone(),
+                    threads: e1::own_handles(vec![vec![api(marker)], vec![api(Op::Set(k.clone(), v(1)))]], false),
+                    create_write_dir: true,
+                },
+                Mode::Bounded(2),
+            ));
+        }
+    }
+    out
+}
+
+fn concurrent_check(x: &crate::sched::Execution) -> Vec<(String, String)> {
+    let mut bad = Vec::new();
+    // the planted entries are a day old; anything set during the execution is stamped "now"
+    let threshold = run::base_time_ns() as i128 - 3_600_000_000_000;
+    let setv = crate::props::e1::wval(1, 0, world::Size::One).bytes();
+    for (rel, n) in &x.final_snapshot {
+        if n.kind == 'f' && rel.starts_with("w/") && rel.ends_with("/k") || rel == "w/k" {
+            if n.content.as_deref() == Some(&setv[..]) && n.meta.mtime < threshold {
+                bad.push((
+                    "set-entry-with-old-queue-position".into(),
+                    format!("{} holds the value just set but carries the replaced entry's modification time (a day old)", rel),
+                ));
+            }
+        }
+    }
+    bad
+}
+
 pub fn run(tier: Tier, shard: Shard, rep: &mut Report) {
     rep.rule = "breadth-first search over operation sequences on 2 (3) keys of one directory: {set k A|B, put k C, get k + read to the end, \
         get k dropped unread, touch k, maintenance with capacity 0/1/2} x front-end {plain, sharded, stacked} x emulated access-time \
@@ -532,7 +579,9 @@ pub fn run(tier: Tier, shard: Shard, rep: &mut Report) {
         content nor any other entry; a set or inserting put carries the newest mtime and no mark; mtime order = queue order), and after \
         every marking step the real prune is run on a clone of the directory with capacity n-1: the entry must survive when an unread \
         entry exists, and be re-queued when it was the oldest. Quick: a pairwise-covering dozen of the 54 configurations to depth 4; \
-        thorough: all of them to depth 8 or fixpoint. Non-trivial = states with >= 2 entries and a read mark."
+        thorough: all of them to depth 8 or fixpoint. Plus: touch / put-on-existing / get racing with a set of the same key (all schedules with \
+        <= 2 preemptions): the entry that ends up holding the set's value never carries the replaced entry's modification time. \
+        Non-trivial = states with >= 2 entries and a read mark."
         .into();
     rep.assumptions = vec![
         "kernel atime behaviour is emulated by the shim (files are opened O_NOATIME): strict = every read stamps atime, relatime = only when atime <= mtime, noatime = never; one virtual clock serves user space and the emulated kernel".into(),
@@ -546,9 +595,19 @@ pub fn run(tier: Tier, shard: Shard, rep: &mut Report) {
         bfs(&cfg, depth, shard, rep, per);
     }
     let _: Option<&Path> = None;
+    run::reset_env();
+    let progs = concurrent_programs();
+    let mut chk = |_pi: usize, x: &crate::sched::Execution| concurrent_check(x);
+    crate::props::e1::explore_all("C09", &progs, shard, rep, &|_| crate::sched::RunOpts::default(), &mut chk, 500_000);
 }
 
 pub fn replay(case: &Value, rep: &mut Report) {
+    if case.get("program").is_some() {
+        let progs: Vec<crate::sched::Program> = concurrent_programs().into_iter().map(|p| p.0).collect();
+        let mut chk = |x: &crate::sched::Execution| concurrent_check(x);
+        crate::props::e1::replay_case("C09", &progs, case, rep, &|| crate::sched::RunOpts::default(), &mut chk);
+        return;
+    }
     let cfg = Config::from_json(&case["config"]);
     let hist: Vec<Sym> = case["history"].as_array().unwrap().iter().map(Sym::from_json).collect();
     let (_l, bad) = replay_history(&cfg, &hist, rep);
